@@ -196,63 +196,177 @@ theorem C14_layered_complete (H : Bytes → Bytes) (n : Nat) (hH : HashOk H n) (
   refine ⟨_, mapM_decodeN_hexEncode n _ (fun q hq => (hall q hq).1) (fun q hq => (hall q hq).2), ?_⟩
   rw [← hr']; simp
 
-/-! ## soundness -/
+/-! ## soundness
+
+`Collision H := ∃ x ≠ y, H x = H y` ranges over ALL byte strings; for a concrete hash with fixed digest size it is provable
+by pigeonhole, so "… ∨ Collision sha256" would say nothing. Every soundness statement below therefore names WHERE the
+collision is: `CollisionIn H S` with `S` = the node preimages of the committed tree ++ the strings this very query
+hashed (`queryPreimages`: the member string and every `sortPair acc p` of the fold). -/
+
+/-- a toy hash with 1-byte digests to exhibit concrete instances (non-vacuity, counter-examples) -/
+def toyH (x : Bytes) : Bytes := [(x.foldl (fun a b => (a * 31 + b + 7) % 256) x.length) % 256]
+
+theorem toyH_ok : HashOk toyH 1 := ⟨fun _ => rfl, by intro x b hb; simp [toyH] at hb; omega⟩
 
 /-- **Clause "no string outside the list is accepted with any proof (another member's, truncated, extended, reordered
-or bit-flipped), up to hash collisions"** — `proof` is universally quantified: whatever list of strings is supplied, a
-`has_member: true` answer for `m` means `m` is a listed entry, or the run exhibits a collision of `H`.
+or bit-flipped), up to hash collisions"**.
 
-Side condition (needed, see `C14_length_condition_needed`): the contracts do not separate leaf and inner hashes, so
-strings of exactly `2·n` bytes (the size of an inner preimage) are excluded — for listed entries and for the queried
-string. Every leaf `stage‖bech32 address‖allocation` built by the minters is ASCII text; with 32-byte digests `2n = 64`,
-with 16-byte digests `2n = 32`. -/
+FULL statement (what the English says), for a tree `t` over the member list and ANY list of proof strings:
+  `hasMember H n (hex (root t)) m proof = some true  →  m ∈ t.leaves ∨ (a collision of H among the strings involved)`.
+The unchanged code does NOT satisfy it: it hashes leaves and inner nodes the same way, so the `2n`-byte preimage of an
+inner node is accepted although it is no listed entry and no collision is involved (`C14_sound_counterexample`,
+`C14_sound_counterexample_no_collision`; replayed on the real contract: `corpus/C14/inner-preimage-accepted.json`), and
+a listed entry that happens to be `2n` bytes long and of the form `sortPair (H x) p` lets `x` in
+(`C14_sound_counterexample_listed2n`).
+
+PROVED (`_partial`): `proof` is universally quantified — whatever strings are supplied, a `has_member: true` answer
+for `m` means
+1. `m` is a listed entry, or
+2. two DIFFERENT strings among {node preimages of `t`} ∪ {`m`, the concatenations this fold hashed} collide under `H`, or
+3. `m` is byte-for-byte the preimage of an inner node of `t` (one of the `|leaves|−1` strings `sortPair a b`, `2n` bytes), or
+4. a LISTED entry is byte-for-byte one of the concatenations the fold hashed (a listed entry of `2n` bytes). -/
+theorem C14_sound_partial (H : Bytes → Bytes) (n : Nat) (Hlen : ∀ x, (H x).length = n) (t : Tree) (m : Bytes)
+    (proof : List (List Nat))
+    (h : hasMember H n (hexEncode (t.root H)) m proof = some true) :
+    ∃ ps, proof.mapM (decodeN n) = some ps ∧
+      (m ∈ t.leaves
+        ∨ CollisionIn H (t.preimages H ++ queryPreimages H m ps)
+        ∨ m ∈ t.inner H
+        ∨ ∃ x ∈ foldPreimages H (H m) ps, x ∈ t.leaves) := by
+  rw [hasMember_eq_some] at h
+  obtain ⟨ps, hps, heq⟩ := h
+  have : hexEncode (t.root H) = hexEncode (foldProof H (H m) ps) := by simpa using heq.symm
+  have hfold := (hexEncode_inj _ _ this).symm
+  exact ⟨ps, hps, sound_explicit H n Hlen t m ps (mapM_decodeN_length n proof ps hps) hfold⟩
+
+/-- Escape 3 is real, for EVERY hash with digests of `n ≥ 1` bytes: the preimage of the root of the two-entry list
+`["", "\0"]` is answered `has_member: true` with the empty proof and is not a listed entry. -/
+theorem C14_sound_counterexample (H : Bytes → Bytes) (n : Nat) (hn : 1 ≤ n) (Hlen : ∀ x, (H x).length = n) :
+    hasMember H n (hexEncode ((Tree.node (.leaf []) (.leaf [0])).root H)) (sortPair (H []) (H [0])) [] = some true
+    ∧ sortPair (H []) (H [0]) ∉ (Tree.node (.leaf []) (.leaf [0])).leaves := by
+  refine ⟨by simp [hasMember, foldProof, Tree.root], ?_⟩
+  have hl : (sortPair (H []) (H [0])).length = 2 * n := by rw [sortPair_length, Hlen, Hlen]; omega
+  simp only [Tree.leaves, List.cons_append, List.nil_append, List.mem_cons, List.not_mem_nil, or_false, not_or]
+  constructor
+  · intro h; rw [h] at hl; simp at hl; omega
+  · intro h; rw [h] at hl; simp at hl; omega
+
+/-- … and no collision is involved: for the toy hash, none of the strings in play collide. -/
+theorem C14_sound_counterexample_no_collision :
+    ∃ (t : Tree) (m : Bytes),
+      hasMember toyH 1 (hexEncode (t.root toyH)) m [] = some true ∧ m ∉ t.leaves
+      ∧ ¬ CollisionIn toyH (t.preimages toyH ++ queryPreimages toyH m []) := by
+  refine ⟨Tree.node (.leaf []) (.leaf [0]), sortPair (toyH []) (toyH [0]), by decide, by decide, ?_⟩
+  unfold CollisionIn
+  decide
+
+/-- Escape 4 is real too: if the only listed entry is the `2n`-byte string `L = sortPair (H x) p`, then `x` (which is
+not `L`) is accepted with the one-element proof `[p]`. -/
+theorem C14_sound_counterexample_listed2n (H : Bytes → Bytes) (n : Nat) (hH : HashOk H n) (x p : Bytes)
+    (hp : p.length = n) (hpb : ∀ b ∈ p, b < 256) (hx : x.length ≠ 2 * n) :
+    hasMember H n (hexEncode ((Tree.leaf (sortPair (H x) p)).root H)) x [hexEncode p] = some true
+    ∧ x ∉ (Tree.leaf (sortPair (H x) p)).leaves := by
+  constructor
+  · rw [hasMember_eq_some]
+    refine ⟨[p], ?_, ?_⟩
+    · simp [List.mapM_cons, decodeN_hexEncode n p hp hpb]
+    · simp [foldProof, Tree.root]
+  · simp only [Tree.leaves, List.mem_singleton]
+    intro h
+    have : x.length = 2 * n := by rw [h, sortPair_length, hH.len, hp]; omega
+    exact hx this
+
+/-- With the side conditions that exclude escapes 3 and 4 — no listed entry and not the queried string is exactly `2n`
+bytes long (`2n` = 64 for SHA-256, 32 for BLAKE3/16) — only 1 and 2 remain.
+NOTE on reachability: a bare Stargaze CONTRACT address (`stars1` + 58 characters: DAO, smart-contract wallet) is exactly
+64 bytes, so a `(None, None)` leaf for it on the SHA-256 whitelist is outside these side conditions; for such lists use
+`C14_sound_partial` / `C14_sound_any_query`. On the BLAKE3/16 whitelist (`2n = 32`) every `stage‖bech32‖allocation`
+leaf is ≥ 44 bytes, so the conditions always hold there. -/
 theorem C14_sound (H : Bytes → Bytes) (n : Nat) (Hlen : ∀ x, (H x).length = n) (t : Tree)
     (hleaf : ∀ x ∈ t.leaves, x.length ≠ 2 * n) (m : Bytes) (hm : m.length ≠ 2 * n)
     (proof : List (List Nat))
     (h : hasMember H n (hexEncode (t.root H)) m proof = some true) :
-    m ∈ t.leaves ∨ Collision H := by
-  rw [hasMember_eq_some] at h
-  obtain ⟨ps, hps, heq⟩ := h
-  have : hexEncode (t.root H) = hexEncode (foldProof H (H m) ps) := by
-    simpa using heq.symm
-  have hfold := (hexEncode_inj _ _ this).symm
-  exact sound H n Hlen t hleaf m hm ps (mapM_decodeN_length n proof ps hps) hfold
+    ∃ ps, proof.mapM (decodeN n) = some ps ∧
+      (m ∈ t.leaves ∨ CollisionIn H (t.preimages H ++ queryPreimages H m ps)) := by
+  obtain ⟨ps, hps, h1 | h2 | h3 | ⟨x, hx, hl⟩⟩ := C14_sound_partial H n Hlen t m proof h
+  · exact ⟨ps, hps, Or.inl h1⟩
+  · exact ⟨ps, hps, Or.inr h2⟩
+  · exact absurd (inner_length H n Hlen t m h3) hm
+  · exact absurd (foldPreimages_length H n Hlen ps (mapM_decodeN_length n proof ps hps) (H m) (Hlen m) x hx) (hleaf x hl)
+
+/-- Only the LIST is constrained (no listed entry of `2n` bytes — something whoever builds the tree can check); the
+queried string is arbitrary, 64-character outsiders included. Then a positive answer means: listed, or a located
+collision, or the queried string is one of the `|leaves|−1` inner-node preimages of the tree. -/
+theorem C14_sound_any_query (H : Bytes → Bytes) (n : Nat) (Hlen : ∀ x, (H x).length = n) (t : Tree)
+    (hleaf : ∀ x ∈ t.leaves, x.length ≠ 2 * n) (m : Bytes) (proof : List (List Nat))
+    (h : hasMember H n (hexEncode (t.root H)) m proof = some true) :
+    ∃ ps, proof.mapM (decodeN n) = some ps ∧
+      (m ∈ t.leaves ∨ CollisionIn H (t.preimages H ++ queryPreimages H m ps) ∨ m ∈ t.inner H) := by
+  obtain ⟨ps, hps, h1 | h2 | h3 | ⟨x, hx, hl⟩⟩ := C14_sound_partial H n Hlen t m proof h
+  · exact ⟨ps, hps, Or.inl h1⟩
+  · exact ⟨ps, hps, Or.inr (Or.inl h2)⟩
+  · exact ⟨ps, hps, Or.inr (Or.inr h3)⟩
+  · exact absurd (foldPreimages_length H n Hlen ps (mapM_decodeN_length n proof ps hps) (H m) (Hlen m) x hx) (hleaf x hl)
+
+/-- "the hash was broken on the inputs of THIS query": a collision among the node preimages of the tree the layered
+(`rs_merkle`) builder makes of `members` and the strings `query_has_member` hashes for `(m, proof)` -/
+def QueryCollision (H : Bytes → Bytes) (n : Nat) (members : List Bytes) (m : Bytes) (proof : List (List Nat)) : Prop :=
+  ∃ t ps, toTree members = some t ∧ proof.mapM (decodeN n) = some ps
+    ∧ CollisionIn H (t.preimages H ++ queryPreimages H m ps)
+
+theorem QueryCollision.collision {H : Bytes → Bytes} {n : Nat} {members : List Bytes} {m : Bytes}
+    {proof : List (List Nat)} (h : QueryCollision H n members m proof) : Collision H := by
+  obtain ⟨_, _, _, _, hc⟩ := h
+  exact hc.collision
+
+theorem layeredRoot_ne_nil (H : Bytes → Bytes) (members : List Bytes) (r : Bytes)
+    (hr : layeredRoot H members = some r) : members ≠ [] := by
+  intro h0; subst h0
+  simp [layeredRoot, treeLayers, bitLen, layersFrom, layersRoot] at hr
 
 /-- Soundness against the root the layered (`rs_merkle`) builder computes for a member list. -/
 theorem C14_sound_layered (H : Bytes → Bytes) (n : Nat) (Hlen : ∀ x, (H x).length = n) (members : List Bytes)
     (r : Bytes) (hr : layeredRoot H members = some r)
     (hleaf : ∀ x ∈ members, x.length ≠ 2 * n) (m : Bytes) (hm : m.length ≠ 2 * n)
     (proof : List (List Nat)) (h : hasMember H n (hexEncode r) m proof = some true) :
-    m ∈ members ∨ Collision H := by
-  have hne : members ≠ [] := by
-    intro h0; subst h0
-    simp [layeredRoot, treeLayers, bitLen, layersFrom, layersRoot] at hr
-  obtain ⟨t, _, h2, h3⟩ := C14_layered H members hne
+    m ∈ members ∨ QueryCollision H n members m proof := by
+  obtain ⟨t, h1, h2, h3⟩ := C14_layered H members (layeredRoot_ne_nil H members r hr)
   rw [hr] at h3
   have hrt : r = t.root H := by simpa using h3
   subst hrt
-  have := C14_sound H n Hlen t (by rw [h2]; exact hleaf) m hm proof h
-  rwa [h2] at this
+  obtain ⟨ps, hps, hl | hc⟩ := C14_sound H n Hlen t (by rw [h2]; exact hleaf) m hm proof h
+  · left; rwa [h2] at hl
+  · right; exact ⟨t, ps, h1, hps, hc⟩
 
-/-- the two deployed instances, with no hypothesis left on the hash -/
+/-- the same with an arbitrary queried string (only the list is free of `2n`-byte entries): the third possibility is
+that the queried string is an inner-node preimage of the layered tree -/
+theorem C14_sound_layered_any_query (H : Bytes → Bytes) (n : Nat) (Hlen : ∀ x, (H x).length = n)
+    (members : List Bytes) (r : Bytes) (hr : layeredRoot H members = some r)
+    (hleaf : ∀ x ∈ members, x.length ≠ 2 * n) (m : Bytes)
+    (proof : List (List Nat)) (h : hasMember H n (hexEncode r) m proof = some true) :
+    m ∈ members ∨ QueryCollision H n members m proof ∨ ∃ t, toTree members = some t ∧ m ∈ t.inner H := by
+  obtain ⟨t, h1, h2, h3⟩ := C14_layered H members (layeredRoot_ne_nil H members r hr)
+  rw [hr] at h3
+  have hrt : r = t.root H := by simpa using h3
+  subst hrt
+  obtain ⟨ps, hps, hl | hc | hi⟩ := C14_sound_any_query H n Hlen t (by rw [h2]; exact hleaf) m proof h
+  · left; rwa [h2] at hl
+  · right; left; exact ⟨t, ps, h1, hps, hc⟩
+  · right; right; exact ⟨t, h1, hi⟩
+
+/-- the two deployed instances, with no hypothesis left on the hash; the collision disjunct is LOCATED (a pair among
+the strings of this tree and this query), so the statement is not a pigeonhole triviality -/
 theorem C14_sound_sha256 (members : List Bytes) (r : Bytes) (hr : layeredRoot Sha256.sha256 members = some r)
     (hleaf : ∀ x ∈ members, x.length ≠ 64) (m : Bytes) (hm : m.length ≠ 64) (proof : List (List Nat))
     (h : hasMember Sha256.sha256 32 (hexEncode r) m proof = some true) :
-    m ∈ members ∨ Collision Sha256.sha256 :=
+    m ∈ members ∨ QueryCollision Sha256.sha256 32 members m proof :=
   C14_sound_layered _ 32 sha256_ok.len members r hr hleaf m hm proof h
 
 theorem C14_sound_blake3 (members : List Bytes) (r : Bytes) (hr : layeredRoot Blake3.blake3_16 members = some r)
     (hleaf : ∀ x ∈ members, x.length ≠ 32) (m : Bytes) (hm : m.length ≠ 32) (proof : List (List Nat))
     (h : hasMember Blake3.blake3_16 16 (hexEncode r) m proof = some true) :
-    m ∈ members ∨ Collision Blake3.blake3_16 :=
+    m ∈ members ∨ QueryCollision Blake3.blake3_16 16 members m proof :=
   C14_sound_layered _ 16 blake3_16_ok.len members r hr hleaf m hm proof h
-
-/-- The length side condition cannot be dropped: the preimage of the root of a two-leaf tree (a `2n`-byte string) is
-accepted with the empty proof although it need not be listed. (Recorded as an observation about the code: there is no
-leaf/inner domain separation. No minter-built leaf has this form.) -/
-theorem C14_length_condition_needed (H : Bytes → Bytes) (n : Nat) (a b : Bytes) :
-    hasMember H n (hexEncode ((Tree.node (.leaf a) (.leaf b)).root H)) (sortPair (H a) (H b)) [] = some true := by
-  simp [hasMember, foldProof, Tree.root]
 
 /-! ## malformed hashes -/
 
@@ -291,55 +405,109 @@ theorem C14_wellformed_answers (H : Bytes → Bytes) (n : Nat) (rootStr : List N
   obtain ⟨ps, hps⟩ := this
   exact ⟨rootStr == hexEncode (foldProof H (H m) ps), by simp [hasMember, hps]⟩
 
-/-- a malformed root is rejected at instantiation (`verify_merkle_root`), in both contracts -/
-theorem C14_malformed_root_plain (now : Nat) (funds : List Coin) (msg : PlainInit)
+/-- a malformed root is rejected at instantiation (`verify_merkle_root`), in both contracts — in the aspect model
+WHATEVER the implementation's verdict on the rest of the message (`res`) is … -/
+theorem C14_malformed_root_plain (msg : PlainInit) (res : Bool)
     (hbad : ¬ (msg.root.length = 64 ∧ ∀ c ∈ msg.root, (hexVal c).isSome)) :
-    instantiatePlain now funds msg = none := by
+    instPlainW msg res = none := by
   have : validHash 32 msg.root = false := by
     simp [validHash, decodeN_none_of_bad 32 msg.root hbad]
-  simp [instantiatePlain, this]
+  simp [instPlainW, this]
 
-theorem C14_malformed_root_tiered (now : Nat) (funds : List Coin) (msg : TieredInit) (r : List Nat)
+theorem C14_malformed_root_tiered (msg : TieredInit) (res : Bool) (r : List Nat)
     (hr : r ∈ msg.roots) (hbad : ¬ (r.length = 32 ∧ ∀ c ∈ r, (hexVal c).isSome)) :
-    instantiateTiered now funds msg = none := by
+    instTieredW msg res = none := by
   have h1 : validHash 16 r = false := by
     simp [validHash, decodeN_none_of_bad 16 r hbad]
   have : msg.roots.all (validHash 16) = false := by
     rw [List.all_eq_false]; exact ⟨r, hr, by simp [h1]⟩
-  simp [instantiateTiered, this]
+  simp [instTieredW, this]
 
-/-! ## the root cannot be changed -/
+/-- … and in the prediction of today's full `instantiate` (the DRIFT column) -/
+theorem C14_malformed_root_predicted (now : Nat) (funds : List Coin) :
+    (∀ (msg : PlainInit), ¬ (msg.root.length = 64 ∧ ∀ c ∈ msg.root, (hexVal c).isSome) →
+      instantiatePlain now funds msg = none)
+    ∧ (∀ (msg : TieredInit) (r : List Nat), r ∈ msg.roots → ¬ (r.length = 32 ∧ ∀ c ∈ r, (hexVal c).isSome) →
+      instantiateTiered now funds msg = none) := by
+  constructor
+  · intro msg hbad
+    have : validHash 32 msg.root = false := by simp [validHash, decodeN_none_of_bad 32 msg.root hbad]
+    simp [instantiatePlain, this]
+  · intro msg r hr hbad
+    have h1 : validHash 16 r = false := by simp [validHash, decodeN_none_of_bad 16 r hbad]
+    have : msg.roots.all (validHash 16) = false := by
+      rw [List.all_eq_false]; exact ⟨r, hr, by simp [h1]⟩
+    simp [instantiateTiered, this]
+
+/-- an accepted instantiation stores exactly the root(s) of the message, and they are well-formed -/
+theorem C14_inst_stores_sent_roots :
+    (∀ (msg : PlainInit) (res : Bool) (s : Plain), instPlainW msg res = some s →
+      s.root = msg.root ∧ validHash 32 s.root = true)
+    ∧ (∀ (msg : TieredInit) (res : Bool) (s : Tiered), instTieredW msg res = some s →
+      s.roots = msg.roots ∧ s.roots.all (validHash 16) = true) := by
+  constructor
+  · intro msg res s h
+    unfold instPlainW at h
+    split at h
+    · simp at h
+    · next hv =>
+      split at h
+      · simp at h; subst h; exact ⟨rfl, by simpa using hv⟩
+      · simp at h
+  · intro msg res s h
+    unfold instTieredW at h
+    split at h
+    · simp at h
+    · next hv =>
+      split at h
+      · simp at h; subst h; exact ⟨rfl, by simpa using hv⟩
+      · simp at h
+
+/-! ## the root cannot be changed
+
+HONESTY NOTE. `C14_root_immutable` is a statement about the MODEL: its step function follows the implementation's
+verdict and resulting configuration for every message (`Op.wlMsg`: ANY accepted message, ANY resulting windows /
+limits / admins) but has no way to write a root. That the real `execute` / `migrate` behave like this — in particular
+that `execute_update_merkle_tree`, which exists in both sources, stays un-dispatched and that no new variant writes
+`MERKLE_ROOT(S)` — is VALIDATED BY THE HARNESS, not proved: the stored roots are compared with the roots the harness
+sent after every message; the `ExecuteMsg` surface is enumerated at run time and every variant without a protocol op,
+and guessed exposures of `update_merkle_tree`, are sent with another valid root under that monitor. -/
+
+theorem setCfg_roots (wl post : Wl) : (wl.setCfg post).roots = wl.roots := by
+  cases wl <;> cases post <;> simp [Wl.setCfg, Wl.roots]
+
+/-- what a successful mint does to the state -/
+theorem mint_spec (H : Bytes → Bytes) (now : Nat) (w w' : World) (sender : Bytes) (stage alloc : Option Nat)
+    (proof : Option (List (List Nat))) (res : Bool) (h : mint H now w sender stage alloc proof res = some w') :
+    ∃ key pal, w.wl.active now = some (key, pal) ∧ gate H now w.wl sender stage alloc proof = true
+      ∧ w' = { w with minted := ⟨sender, key, stage, alloc, now⟩ :: w.minted } := by
+  unfold mint at h
+  split at h
+  · simp at h
+  · next key pal hact =>
+    split at h
+    · simp at h
+    · next hg =>
+      split at h
+      · simp at h; exact ⟨key, pal, hact, by simpa using hg, h.symm⟩
+      · simp at h
 
 theorem step_roots (H : Bytes → Bytes) (now : Nat) (w w' : World) (op : Op) (h : step H now w op = some w') :
     w'.wl.roots = w.wl.roots := by
   cases op with
-  | plain o =>
-    cases hw : w.wl with
-    | tiered s => simp [step, hw] at h
-    | plain s =>
-      simp only [step, hw, Option.map_eq_some_iff] at h
-      obtain ⟨s', hs, rfl⟩ := h
-      have : s'.root = s.root := by
-        cases o <;> simp only [Plain.exec] at hs <;> (repeat' split at hs) <;> simp_all <;> subst hs <;> rfl
-      simp [Wl.roots, this]
-  | tiered o =>
-    cases hw : w.wl with
-    | plain s => simp [step, hw] at h
-    | tiered s =>
-      simp only [step, hw, Option.map_eq_some_iff] at h
-      obtain ⟨s', hs, rfl⟩ := h
-      have : s'.roots = s.roots := by
-        cases o <;> simp only [Tiered.exec] at hs <;> (repeat' split at hs) <;> simp_all <;> subst hs <;> rfl
-      simp [Wl.roots, this]
-  | mint sender stage alloc proof =>
-    simp only [step, mint] at h
-    repeat' split at h
-    all_goals simp_all
-    all_goals subst h; rfl
+  | wlMsg acc post =>
+    simp only [step] at h
+    split at h
+    · simp at h; subst h; exact setCfg_roots _ _
+    · simp at h
+  | mint sender stage alloc proof res =>
+    obtain ⟨_, _, _, _, rfl⟩ := mint_spec H now w w' sender stage alloc proof res h
+    rfl
 
-/-- **Clause "the root cannot be changed by any call"** — for every history of execute messages (the complete
-`ExecuteMsg` surface of both whitelist contracts, migrate, and mints through a bound minter), by any senders, with any
-arguments, at any block times, the stored root(s) are those written at instantiation. -/
+/-- **Clause "the root cannot be changed by any call"** (model level, see the honesty note) — for every history of
+messages to the whitelist (any variant, known or unknown, any sender, any arguments, any verdict, any resulting
+configuration) and of mints through a bound minter, at any block times, the stored root(s) are those written at
+instantiation. -/
 theorem C14_root_immutable (H : Bytes → Bytes) (w : World) (ops : List (Nat × Op)) :
     (run H w ops).wl.roots = w.wl.roots := by
   induction ops generalizing w with
@@ -352,22 +520,60 @@ theorem C14_root_immutable (H : Bytes → Bytes) (w : World) (ops : List (Nat ×
     | none => rfl
     | some w' => exact step_roots H op.1 w w' op.2 h
 
+/-- the PREDICTION of today's message handlers (the complete `ExecuteMsg` of both contracts, `migrate`, and "anything
+else does not parse") writes no root either -/
+theorem C14_predicted_exec_keeps_roots (now : Nat) (wl wl' : Wl) (o : WlOp) (h : predict now wl o = some wl') :
+    wl'.roots = wl.roots := by
+  cases o with
+  | plain o =>
+    cases wl with
+    | tiered s => simp [predict] at h
+    | plain s =>
+      simp only [predict, Option.map_eq_some_iff] at h
+      obtain ⟨s', hs, rfl⟩ := h
+      have : s'.root = s.root := by
+        cases o <;> simp only [Plain.exec] at hs <;> (repeat' split at hs) <;> simp_all <;> subst hs <;> rfl
+      simp [Wl.roots, this]
+  | tiered o =>
+    cases wl with
+    | plain s => simp [predict] at h
+    | tiered s =>
+      simp only [predict, Option.map_eq_some_iff] at h
+      obtain ⟨s', hs, rfl⟩ := h
+      have : s'.roots = s.roots := by
+        cases o <;> simp only [Tiered.exec] at hs <;> (repeat' split at hs) <;> simp_all <;> subst hs <;> rfl
+      simp [Wl.roots, this]
+
 /-- a plain whitelist stays a plain whitelist with the same root -/
 theorem step_plain (H : Bytes → Bytes) (now : Nat) (w w' : World) (op : Op) (s : Plain) (hw : w.wl = .plain s)
     (h : step H now w op = some w') : ∃ s', w'.wl = .plain s' ∧ s'.root = s.root := by
-  have hr := step_roots H now w w' op h
   cases op with
-  | plain o =>
-    simp only [step, hw, Option.map_eq_some_iff] at h
-    obtain ⟨s', _, rfl⟩ := h
-    refine ⟨s', rfl, ?_⟩
-    simpa [Wl.roots, hw] using hr
-  | tiered o => simp [step, hw] at h
-  | mint sender stage alloc proof =>
-    simp only [step, mint] at h
-    repeat' split at h
-    all_goals simp_all
-    all_goals subst h; exact ⟨s, rfl, rfl⟩
+  | wlMsg acc post =>
+    simp only [step] at h
+    split at h
+    · simp at h; subst h
+      cases post with
+      | plain p => exact ⟨{ p with root := s.root }, by simp [hw, Wl.setCfg], rfl⟩
+      | tiered p => exact ⟨s, by simp [hw, Wl.setCfg], rfl⟩
+    · simp at h
+  | mint sender stage alloc proof res =>
+    obtain ⟨_, _, _, _, rfl⟩ := mint_spec H now w w' sender stage alloc proof res h
+    exact ⟨s, hw, rfl⟩
+
+theorem step_tiered (H : Bytes → Bytes) (now : Nat) (w w' : World) (op : Op) (s : Tiered) (hw : w.wl = .tiered s)
+    (h : step H now w op = some w') : ∃ s', w'.wl = .tiered s' ∧ s'.roots = s.roots := by
+  cases op with
+  | wlMsg acc post =>
+    simp only [step] at h
+    split at h
+    · simp at h; subst h
+      cases post with
+      | plain p => exact ⟨s, by simp [hw, Wl.setCfg], rfl⟩
+      | tiered p => exact ⟨{ p with roots := s.roots }, by simp [hw, Wl.setCfg], rfl⟩
+    · simp at h
+  | mint sender stage alloc proof res =>
+    obtain ⟨_, _, _, _, rfl⟩ := mint_spec H now w w' sender stage alloc proof res h
+    exact ⟨s, hw, rfl⟩
 
 theorem run_plain (H : Bytes → Bytes) (w : World) (ops : List (Nat × Op)) (s : Plain) (hw : w.wl = .plain s) :
     ∃ s', (run H w ops).wl = .plain s' ∧ s'.root = s.root := by
@@ -383,6 +589,20 @@ theorem run_plain (H : Bytes → Bytes) (w : World) (ops : List (Nat × Op)) (s 
       obtain ⟨s2, h3, h4⟩ := ih w' s1 h1
       exact ⟨s2, h3, by rw [h4, h2]⟩
 
+theorem run_tiered (H : Bytes → Bytes) (w : World) (ops : List (Nat × Op)) (s : Tiered) (hw : w.wl = .tiered s) :
+    ∃ s', (run H w ops).wl = .tiered s' ∧ s'.roots = s.roots := by
+  induction ops generalizing w s with
+  | nil => exact ⟨s, hw, rfl⟩
+  | cons op ops ih =>
+    simp only [run, List.foldl_cons] at ih ⊢
+    unfold step'
+    cases h : step H op.1 w op.2 with
+    | none => exact ih w s hw
+    | some w' =>
+      obtain ⟨s1, h1, h2⟩ := step_tiered H op.1 w w' op.2 s hw h
+      obtain ⟨s2, h3, h4⟩ := ih w' s1 h1
+      exact ⟨s2, h3, by rw [h4, h2]⟩
+
 /-- consequently the plain whitelist's answers never change: after any history, at any block time, `HasMember`
 answers exactly what it answered right after instantiation (accepted entries stay accepted, nothing else ever becomes
 accepted). -/
@@ -392,6 +612,26 @@ theorem C14_plain_answers_stable (H : Bytes → Bytes) (w : World) (s : Plain) (
   obtain ⟨s', h1, h2⟩ := run_plain H w ops s hw
   simp [Wl.hasMember, h1, hw, Plain.hasMember, h2]
 
+/-- the tiered counterpart (frame theorem): after any history the answer at time `now` is a function of the roots
+COMMITTED AT INSTANTIATION and the windows now in force only — which stage is active may have been moved by the
+admins, what that stage's root is cannot have been. -/
+theorem C14_tiered_answers_frame (H : Bytes → Bytes) (w : World) (s : Tiered) (hw : w.wl = .tiered s)
+    (ops : List (Nat × Op)) :
+    ∃ s', (run H w ops).wl = .tiered s' ∧ s'.roots = s.roots ∧
+      ∀ now m proof, (run H w ops).wl.hasMember H now m proof =
+        match activeIdx now s'.stages with
+        | none => none
+        | some i => match s.roots[i]? with
+          | none => none
+          | some r => hasMember H 16 r m proof := by
+  obtain ⟨s', h1, h2⟩ := run_tiered H w ops s hw
+  refine ⟨s', h1, h2, ?_⟩
+  intro now m proof
+  simp only [Wl.hasMember, h1, Tiered.hasMember, h2]
+  cases activeIdx now s'.stages with
+  | none => rfl
+  | some i => cases s.roots[i]? <;> rfl
+
 /-! ## the tiered variant -/
 
 /-- **Clause "the tiered variant checks against the root of the currently active stage only"** —
@@ -400,13 +640,14 @@ theorem C14_tiered_no_active_stage (H : Bytes → Bytes) (s : Tiered) (now : Nat
     (h : activeIdx now s.stages = none) : s.hasMember H now m proof = none := by
   simp [Tiered.hasMember, h]
 
-/-- with active stage `i` the answer is the plain membership check against `roots[i]` and nothing else: it is the same
-in any other state whose active stage and `i`-th root agree (the other stages' roots are irrelevant). -/
+/-- with active stage `i` the answer is the plain membership check against `roots[i]` (unfolding of the definition;
+the content is in `C14_tiered_complete`, `C14_tiered_sound`, `C14_tiered_other_roots_irrelevant`) -/
 theorem C14_tiered_active_root (H : Bytes → Bytes) (s : Tiered) (now i : Nat) (r : List Nat) (m : Bytes)
     (proof : List (List Nat)) (hi : activeIdx now s.stages = some i) (hr : s.roots[i]? = some r) :
     s.hasMember H now m proof = hasMember H 16 r m proof := by
   simp [Tiered.hasMember, hi, hr]
 
+/-- it is the same in any other state whose active stage and `i`-th root agree (the other stages' roots are irrelevant) -/
 theorem C14_tiered_other_roots_irrelevant (H : Bytes → Bytes) (s s' : Tiered) (now i : Nat) (m : Bytes)
     (proof : List (List Nat)) (hi : activeIdx now s.stages = some i) (hi' : activeIdx now s'.stages = some i)
     (hr : s.roots[i]? = s'.roots[i]?) :
@@ -444,13 +685,14 @@ theorem C14_tiered_complete (H : Bytes → Bytes) (hH : HashOk H 16) (s : Tiered
   exact C14_layered_complete H 16 hH members j m r hm hr
 
 /-- soundness of the tiered query: a positive answer at time `now` means membership in the **active** stage's list
-(whose tree's root is stored at the active index), or a collision — membership in another stage's list does not help. -/
+(whose tree's root is stored at the active index), or a located collision — membership in another stage's list does
+not help. -/
 theorem C14_tiered_sound (H : Bytes → Bytes) (Hlen : ∀ x, (H x).length = 16) (s : Tiered) (now i : Nat)
     (members : List Bytes) (r : Bytes)
     (hi : activeIdx now s.stages = some i) (hroot : s.roots[i]? = some (hexEncode r))
     (hr : layeredRoot H members = some r)
     (hleaf : ∀ x ∈ members, x.length ≠ 32) (m : Bytes) (hm : m.length ≠ 32) (proof : List (List Nat))
-    (h : s.hasMember H now m proof = some true) : m ∈ members ∨ Collision H := by
+    (h : s.hasMember H now m proof = some true) : m ∈ members ∨ QueryCollision H 16 members m proof := by
   rw [C14_tiered_active_root H s now i _ m proof hi hroot] at h
   exact C14_sound_layered H 16 Hlen members r hr hleaf m hm proof h
 
@@ -458,8 +700,7 @@ theorem C14_tiered_sound (H : Bytes → Bytes) (Hlen : ∀ x, (H x).length = 16)
 
 /-- **Clause "minters bind the sender (and stage/allocation) into the leaf"** — the leaf string
 `stage‖sender‖allocation` (absent parts omitted, numbers in decimal) determines all three components, **provided** the
-two senders have the same length and start with a non-digit character (true of every bech32 address `stars1…`, all of
-one chain-wide length per account type). -/
+two senders have the same length and start with a non-digit character (true of every bech32 address `stars1…`). -/
 theorem C14_sender_bound (stage stage' alloc alloc' : Option Nat) (sender sender' : Bytes)
     (hlen : sender.length = sender'.length)
     (hs : ∃ c r, sender = c :: r ∧ ¬ isDigit c) (hs' : ∃ c r, sender' = c :: r ∧ ¬ isDigit c)
@@ -475,104 +716,331 @@ theorem C14_sender_bound (stage stage' alloc alloc' : Option Nat) (sender sender
   obtain ⟨h3, h4⟩ := List.append_inj h2 hlen
   exact ⟨optDec_inj _ _ h1, h3, optDec_inj _ _ h4⟩
 
+/-- The equal-length hypothesis weakened to what Stargaze addresses satisfy: account addresses are 44 characters,
+contract addresses 64 — lengths that are equal or MORE THAN 10 APART — and an allocation is a `u32` (at most 10 decimal
+digits), so a longer address can never be imitated by a shorter one plus allocation digits. -/
+theorem C14_sender_bound_mixed (stage stage' alloc alloc' : Option Nat) (sender sender' : Bytes)
+    (hlen : sender.length = sender'.length ∨ sender.length + 10 < sender'.length ∨ sender'.length + 10 < sender.length)
+    (ha : ∀ x, alloc = some x → x < 2 ^ 32) (ha' : ∀ x, alloc' = some x → x < 2 ^ 32)
+    (hs : ∃ c r, sender = c :: r ∧ ¬ isDigit c) (hs' : ∃ c r, sender' = c :: r ∧ ¬ isDigit c)
+    (h : leafStr stage sender alloc = leafStr stage' sender' alloc') :
+    stage = stage' ∧ sender = sender' ∧ alloc = alloc' := by
+  have hEq : sender.length = sender'.length := by
+    have h0 := h
+    unfold leafStr at h0
+    rw [List.append_assoc, List.append_assoc] at h0
+    have hx : ∃ c r, sender ++ optDec alloc = c :: r ∧ ¬ isDigit c := by
+      obtain ⟨c, r, rfl, hc⟩ := hs; exact ⟨c, r ++ optDec alloc, rfl, hc⟩
+    have hx' : ∃ c r, sender' ++ optDec alloc' = c :: r ∧ ¬ isDigit c := by
+      obtain ⟨c, r, rfl, hc⟩ := hs'; exact ⟨c, r ++ optDec alloc', rfl, hc⟩
+    obtain ⟨_, h2⟩ := digit_prefix_unique _ _ _ _ (optDec_digits stage) (optDec_digits stage') hx hx' h0
+    have hl := congrArg List.length h2
+    simp only [List.length_append] at hl
+    have b1 := optDec_length_le alloc ha
+    have b2 := optDec_length_le alloc' ha'
+    omega
+  exact C14_sender_bound stage stage' alloc alloc' sender sender' hEq hs hs' h
+
 /-- the hypothesis is needed: with a sender that starts with a digit two different (stage, sender, allocation)
 triples of equal sender length share a leaf string -/
 theorem C14_sender_bound_needs_hypothesis :
     leafStr (some 1) [50, 97, 98] (some 3) = leafStr (some 12) [97, 98, 51] none := by
   simp [leafStr, optDec, decBytes]
 
+/-- a list entry as the tree builder sees it: `(stage, address, allocation)` -/
+abbrev Entry := Option Nat × Bytes × Option Nat
+
+def leavesOf (entries : List Entry) : List Bytes := entries.map fun e => leafStr e.1 e.2.1 e.2.2
+
+/-- the shape of the addresses and allocations in play: the address starts with a non-digit, its length is one of `Ls`,
+the allocation (if any) is a `u32`, and the leaf is not exactly `2n` bytes long -/
+structure TripleOk (Ls : List Nat) (twoN : Nat) (stage : Option Nat) (sender : Bytes) (alloc : Option Nat) : Prop where
+  nondigit : ∃ c r, sender = c :: r ∧ ¬ isDigit c
+  len : sender.length ∈ Ls
+  alloc32 : ∀ x, alloc = some x → x < 2 ^ 32
+  not2n : (leafStr stage sender alloc).length ≠ twoN
+
+/-- address lengths that are pairwise equal or more than 10 apart (Stargaze: `[44, 64]`) -/
+def LensApart (Ls : List Nat) : Prop := ∀ a ∈ Ls, ∀ b ∈ Ls, a = b ∨ a + 10 < b ∨ b + 10 < a
+
+theorem lensApart_stargaze : LensApart [44, 64] := by
+  intro a ha b hb
+  simp only [List.mem_cons, List.not_mem_nil, or_false] at ha hb
+  rcases ha with rfl | rfl <;> rcases hb with rfl | rfl <;> omega
+
+/-- listed, or the hash was broken on the strings of this very query -/
+def ListedOrBroken (H : Bytes → Bytes) (n : Nat) (entries : List Entry) (stage : Option Nat) (sender : Bytes)
+    (alloc : Option Nat) : Prop :=
+  (stage, sender, alloc) ∈ entries
+    ∨ ∃ pf, QueryCollision H n (leavesOf entries) (leafStr stage sender alloc) pf
+
+theorem gate_spec (H : Bytes → Bytes) (now : Nat) (wl : Wl) (sender : Bytes) (stage alloc : Option Nat)
+    (proof : Option (List (List Nat))) (h : gate H now wl sender stage alloc proof = true) :
+    ∃ pf, proof = some pf ∧ wl.hasMember H now (leafStr stage sender alloc) pf = some true := by
+  unfold gate at h
+  cases hact : wl.active now with
+  | none => simp [hact] at h
+  | some a =>
+    cases proof with
+    | none => simp [hact] at h
+    | some pf => simp [hact] at h; exact ⟨pf, rfl, h⟩
+
 /-- a successful whitelist mint means the minter-built leaf for **this transaction's sender** passed the membership
-query (there is no other way through the gate) -/
+query (there is no other way through the gate, whatever the witness `res` says) -/
 theorem mint_ok_hasMember (H : Bytes → Bytes) (now : Nat) (w w' : World) (sender : Bytes) (stage alloc : Option Nat)
-    (proof : Option (List (List Nat))) (h : mint H now w sender stage alloc proof = some w') :
+    (proof : Option (List (List Nat))) (res : Bool) (h : mint H now w sender stage alloc proof res = some w') :
     ∃ pf, proof = some pf ∧ w.wl.hasMember H now (leafStr stage sender alloc) pf = some true := by
-  unfold mint at h
-  repeat' split at h
-  all_goals simp_all
+  obtain ⟨_, _, _, hg, _⟩ := mint_spec H now w w' sender stage alloc proof res h
+  exact gate_spec H now w.wl sender stage alloc proof hg
+
+/-- membership of the caller's leaf in the list ⇒ the caller's own triple is a listed entry -/
+theorem triple_of_leaf_mem (Ls : List Nat) (hLs : LensApart Ls) (twoN : Nat) (entries : List Entry)
+    (hent : ∀ e ∈ entries, TripleOk Ls twoN e.1 e.2.1 e.2.2)
+    (stage : Option Nat) (sender : Bytes) (alloc : Option Nat) (hc : TripleOk Ls twoN stage sender alloc)
+    (hmem : leafStr stage sender alloc ∈ leavesOf entries) : (stage, sender, alloc) ∈ entries := by
+  simp only [leavesOf, List.mem_map] at hmem
+  obtain ⟨e, he, heq⟩ := hmem
+  have hE := hent e he
+  obtain ⟨h1, h2, h3⟩ := C14_sender_bound_mixed e.1 stage e.2.2 alloc e.2.1 sender
+    (hLs _ hE.len _ hc.len) hE.alloc32 hc.alloc32 hE.nondigit hc.nondigit heq
+  have : e = (stage, sender, alloc) := by
+    obtain ⟨a, b, c⟩ := e; simp_all
+  rw [← this]; exact he
 
 /-- **Clause "a proof issued for one address is useless to another"** — plain whitelist. The list was built from
-entries `(stage, address, allocation)`; all addresses (the listed ones and the caller's) have one length and start with
-a non-digit; no leaf is 64 bytes long. If a mint by `sender` passes the whitelist gate — with *any* proof, in
-particular one issued to somebody else — then the caller's own `(stage, sender, allocation)` is a listed entry, or a
-SHA-256-style collision is exhibited. -/
+entries `(stage, address, allocation)`; all addresses (the listed ones and the caller's) start with a non-digit and have
+lengths from a set that is pairwise equal-or-more-than-10-apart (`[44, 64]` on Stargaze: accounts AND contracts in one
+list are covered); allocations are `u32`; no leaf is exactly 64 bytes long. If a mint by `sender` passes the whitelist
+gate — with *any* proof, in particular one issued to somebody else, and whatever the other gates say — then the
+caller's own `(stage, sender, allocation)` is a listed entry, or SHA-256 was broken on the strings of that query. -/
 theorem C14_mint_sender_bound_plain (H : Bytes → Bytes) (Hlen : ∀ x, (H x).length = 32) (now : Nat) (w w' : World)
     (s : Plain) (hw : w.wl = .plain s)
-    (entries : List (Option Nat × Bytes × Option Nat)) (L : Nat) (r : Bytes)
-    (hr : layeredRoot H (entries.map fun e => leafStr e.1 e.2.1 e.2.2) = some r) (hroot : s.root = hexEncode r)
-    (hent : ∀ e ∈ entries, e.2.1.length = L ∧ (∃ c r, e.2.1 = c :: r ∧ ¬ isDigit c) ∧
-      (leafStr e.1 e.2.1 e.2.2).length ≠ 64)
-    (sender : Bytes) (stage alloc : Option Nat) (proof : Option (List (List Nat)))
-    (hsl : sender.length = L) (hsd : ∃ c r, sender = c :: r ∧ ¬ isDigit c)
-    (hll : (leafStr stage sender alloc).length ≠ 64)
-    (h : mint H now w sender stage alloc proof = some w') :
-    (stage, sender, alloc) ∈ entries ∨ Collision H := by
-  obtain ⟨pf, _, hm⟩ := mint_ok_hasMember H now w w' sender stage alloc proof h
+    (entries : List Entry) (Ls : List Nat) (hLs : LensApart Ls) (r : Bytes)
+    (hr : layeredRoot H (leavesOf entries) = some r) (hroot : s.root = hexEncode r)
+    (hent : ∀ e ∈ entries, TripleOk Ls 64 e.1 e.2.1 e.2.2)
+    (sender : Bytes) (stage alloc : Option Nat) (proof : Option (List (List Nat))) (res : Bool)
+    (hc : TripleOk Ls 64 stage sender alloc)
+    (h : mint H now w sender stage alloc proof res = some w') :
+    ListedOrBroken H 32 entries stage sender alloc := by
+  obtain ⟨pf, _, hm⟩ := mint_ok_hasMember H now w w' sender stage alloc proof res h
   simp only [Wl.hasMember, hw, Plain.hasMember, hroot] at hm
   have := C14_sound_layered H 32 Hlen _ r hr
-    (by intro x hx; simp only [List.mem_map] at hx; obtain ⟨e, he, rfl⟩ := hx; exact (hent e he).2.2)
-    _ hll pf hm
-  rcases this with hmem | hc
-  · left
-    simp only [List.mem_map] at hmem
-    obtain ⟨e, he, heq⟩ := hmem
-    obtain ⟨h1, h2, h3⟩ := C14_sender_bound e.1 stage e.2.2 alloc e.2.1 sender
-      (by rw [(hent e he).1, hsl]) (hent e he).2.1 hsd heq
-    have : e = (stage, sender, alloc) := by
-      obtain ⟨a, b, c⟩ := e; simp_all
-    rw [← this]; exact he
-  · right; exact hc
+    (by intro x hx; simp only [leavesOf, List.mem_map] at hx; obtain ⟨e, he, rfl⟩ := hx; exact (hent e he).not2n)
+    _ hc.not2n pf hm
+  rcases this with hmem | hcoll
+  · left; exact triple_of_leaf_mem Ls hLs 64 entries hent stage sender alloc hc hmem
+  · right; exact ⟨pf, hcoll⟩
 
 /-- … and this holds in every state reachable from instantiation by any history (the root is still the committed one). -/
 theorem C14_mint_sender_bound_history (H : Bytes → Bytes) (Hlen : ∀ x, (H x).length = 32) (w0 : World) (s0 : Plain)
     (hw0 : w0.wl = .plain s0) (ops : List (Nat × Op)) (now : Nat) (w' : World)
-    (entries : List (Option Nat × Bytes × Option Nat)) (L : Nat) (r : Bytes)
-    (hr : layeredRoot H (entries.map fun e => leafStr e.1 e.2.1 e.2.2) = some r) (hroot : s0.root = hexEncode r)
-    (hent : ∀ e ∈ entries, e.2.1.length = L ∧ (∃ c r, e.2.1 = c :: r ∧ ¬ isDigit c) ∧
-      (leafStr e.1 e.2.1 e.2.2).length ≠ 64)
-    (sender : Bytes) (stage alloc : Option Nat) (proof : Option (List (List Nat)))
-    (hsl : sender.length = L) (hsd : ∃ c r, sender = c :: r ∧ ¬ isDigit c)
-    (hll : (leafStr stage sender alloc).length ≠ 64)
-    (h : mint H now (run H w0 ops) sender stage alloc proof = some w') :
-    (stage, sender, alloc) ∈ entries ∨ Collision H := by
+    (entries : List Entry) (Ls : List Nat) (hLs : LensApart Ls) (r : Bytes)
+    (hr : layeredRoot H (leavesOf entries) = some r) (hroot : s0.root = hexEncode r)
+    (hent : ∀ e ∈ entries, TripleOk Ls 64 e.1 e.2.1 e.2.2)
+    (sender : Bytes) (stage alloc : Option Nat) (proof : Option (List (List Nat))) (res : Bool)
+    (hc : TripleOk Ls 64 stage sender alloc)
+    (h : mint H now (run H w0 ops) sender stage alloc proof res = some w') :
+    ListedOrBroken H 32 entries stage sender alloc := by
   obtain ⟨s', h1, h2⟩ := run_plain H w0 ops s0 hw0
-  exact C14_mint_sender_bound_plain H Hlen now (run H w0 ops) w' s' h1 entries L r hr (by rw [h2, hroot]) hent
-    sender stage alloc proof hsl hsd hll h
+  exact C14_mint_sender_bound_plain H Hlen now (run H w0 ops) w' s' h1 entries Ls hLs r hr (by rw [h2, hroot]) hent
+    sender stage alloc proof res hc h
 
 /-- the same through the tiered whitelist: the entry must be in the list of the stage that is active **now** -/
 theorem C14_mint_sender_bound_tiered (H : Bytes → Bytes) (Hlen : ∀ x, (H x).length = 16) (now i : Nat) (w w' : World)
     (s : Tiered) (hw : w.wl = .tiered s)
-    (entries : List (Option Nat × Bytes × Option Nat)) (L : Nat) (r : Bytes)
+    (entries : List Entry) (Ls : List Nat) (hLs : LensApart Ls) (r : Bytes)
     (hi : activeIdx now s.stages = some i) (hroot : s.roots[i]? = some (hexEncode r))
-    (hr : layeredRoot H (entries.map fun e => leafStr e.1 e.2.1 e.2.2) = some r)
-    (hent : ∀ e ∈ entries, e.2.1.length = L ∧ (∃ c r, e.2.1 = c :: r ∧ ¬ isDigit c) ∧
-      (leafStr e.1 e.2.1 e.2.2).length ≠ 32)
-    (sender : Bytes) (stage alloc : Option Nat) (proof : Option (List (List Nat)))
-    (hsl : sender.length = L) (hsd : ∃ c r, sender = c :: r ∧ ¬ isDigit c)
-    (hll : (leafStr stage sender alloc).length ≠ 32)
-    (h : mint H now w sender stage alloc proof = some w') :
-    (stage, sender, alloc) ∈ entries ∨ Collision H := by
-  obtain ⟨pf, _, hm⟩ := mint_ok_hasMember H now w w' sender stage alloc proof h
+    (hr : layeredRoot H (leavesOf entries) = some r)
+    (hent : ∀ e ∈ entries, TripleOk Ls 32 e.1 e.2.1 e.2.2)
+    (sender : Bytes) (stage alloc : Option Nat) (proof : Option (List (List Nat))) (res : Bool)
+    (hc : TripleOk Ls 32 stage sender alloc)
+    (h : mint H now w sender stage alloc proof res = some w') :
+    ListedOrBroken H 16 entries stage sender alloc := by
+  obtain ⟨pf, _, hm⟩ := mint_ok_hasMember H now w w' sender stage alloc proof res h
   simp only [Wl.hasMember, hw] at hm
   have := C14_tiered_sound H Hlen s now i _ r hi hroot hr
-    (by intro x hx; simp only [List.mem_map] at hx; obtain ⟨e, he, rfl⟩ := hx; exact (hent e he).2.2)
-    _ hll pf hm
-  rcases this with hmem | hc
-  · left
-    simp only [List.mem_map] at hmem
-    obtain ⟨e, he, heq⟩ := hmem
-    obtain ⟨h1, h2, h3⟩ := C14_sender_bound e.1 stage e.2.2 alloc e.2.1 sender
-      (by rw [(hent e he).1, hsl]) (hent e he).2.1 hsd heq
-    have : e = (stage, sender, alloc) := by
-      obtain ⟨a, b, c⟩ := e; simp_all
-    rw [← this]; exact he
-  · right; exact hc
+    (by intro x hx; simp only [leavesOf, List.mem_map] at hx; obtain ⟨e, he, rfl⟩ := hx; exact (hent e he).not2n)
+    _ hc.not2n pf hm
+  rcases this with hmem | hcoll
+  · left; exact triple_of_leaf_mem Ls hLs 32 entries hent stage sender alloc hc hmem
+  · right; exact ⟨pf, hcoll⟩
+
+/-- … in every reachable state: after ANY history (the admins may have moved every window), a mint that passes the gate
+while stage `i` is active — by the windows in force THEN — means the caller's triple is in the list whose root was
+committed at index `i` AT INSTANTIATION (`hroot` is about the initial state `s0`; that it still holds is derived from
+root immutability, not assumed). -/
+theorem C14_mint_sender_bound_tiered_history (H : Bytes → Bytes) (Hlen : ∀ x, (H x).length = 16) (w0 : World)
+    (s0 : Tiered) (hw0 : w0.wl = .tiered s0) (ops : List (Nat × Op)) (now i : Nat) (w' : World)
+    (entries : List Entry) (Ls : List Nat) (hLs : LensApart Ls) (r : Bytes)
+    (hi : ∀ s', (run H w0 ops).wl = .tiered s' → activeIdx now s'.stages = some i)
+    (hroot : s0.roots[i]? = some (hexEncode r))
+    (hr : layeredRoot H (leavesOf entries) = some r)
+    (hent : ∀ e ∈ entries, TripleOk Ls 32 e.1 e.2.1 e.2.2)
+    (sender : Bytes) (stage alloc : Option Nat) (proof : Option (List (List Nat))) (res : Bool)
+    (hc : TripleOk Ls 32 stage sender alloc)
+    (h : mint H now (run H w0 ops) sender stage alloc proof res = some w') :
+    ListedOrBroken H 16 entries stage sender alloc := by
+  obtain ⟨s', h1, h2⟩ := run_tiered H w0 ops s0 hw0
+  exact C14_mint_sender_bound_tiered H Hlen now i (run H w0 ops) w' s' h1 entries Ls hLs r (hi s' h1)
+    (by rw [h2]; exact hroot) hr hent sender stage alloc proof res hc h
+
+/-- every mint operation of a history is by a caller of the stated shape -/
+def CallersOk (Ls : List Nat) (twoN : Nat) (ops : List (Nat × Op)) : Prop :=
+  ∀ top ∈ ops, ∀ sender stage alloc proof res, top.2 = Op.mint sender stage alloc proof res →
+    TripleOk Ls twoN stage sender alloc
+
+/-- **History-level invariant of the ghost log (plain whitelist).** Start from a world with an empty log whose root
+commits to `entries`. After ANY history — configuration messages with any verdict and outcome, mints by anybody with any
+proofs and any verdict of the other gates — EVERY accepted whitelist mint in the log was made by a sender whose own
+`(stage, sender, allocation)` is a listed entry (or SHA-256 was broken on the strings of that query). -/
+theorem C14_minted_all_listed_plain (H : Bytes → Bytes) (Hlen : ∀ x, (H x).length = 32) (w0 : World) (s0 : Plain)
+    (hw0 : w0.wl = .plain s0) (hlog : w0.minted = [])
+    (entries : List Entry) (Ls : List Nat) (hLs : LensApart Ls) (r : Bytes)
+    (hr : layeredRoot H (leavesOf entries) = some r) (hroot : s0.root = hexEncode r)
+    (hent : ∀ e ∈ entries, TripleOk Ls 64 e.1 e.2.1 e.2.2)
+    (ops : List (Nat × Op)) (hops : CallersOk Ls 64 ops) :
+    ∀ rec ∈ (run H w0 ops).minted, ListedOrBroken H 32 entries rec.stage rec.sender rec.alloc := by
+  suffices hgen : ∀ (ops : List (Nat × Op)) (w : World) (s : Plain), w.wl = .plain s → s.root = hexEncode r →
+      (∀ rec ∈ w.minted, ListedOrBroken H 32 entries rec.stage rec.sender rec.alloc) → CallersOk Ls 64 ops →
+      ∀ rec ∈ (run H w ops).minted, ListedOrBroken H 32 entries rec.stage rec.sender rec.alloc by
+    exact hgen ops w0 s0 hw0 hroot (by rw [hlog]; simp) hops
+  intro ops
+  induction ops with
+  | nil => intro w s _ _ hinv _; exact hinv
+  | cons top ops ih =>
+    intro w s hw hrt hinv hc
+    simp only [run, List.foldl_cons]
+    have hc' : CallersOk Ls 64 ops := fun t ht => hc t (by simp [ht])
+    unfold step'
+    cases hstep : step H top.1 w top.2 with
+    | none => exact ih w s hw hrt hinv hc'
+    | some w' =>
+      obtain ⟨s1, h1, h2⟩ := step_plain H top.1 w w' top.2 s hw hstep
+      refine ih w' s1 h1 (by rw [h2, hrt]) ?_ hc'
+      cases hop : top.2 with
+      | wlMsg acc post =>
+        rw [hop] at hstep
+        simp only [step] at hstep
+        split at hstep
+        · simp at hstep; subst hstep; exact hinv
+        · simp at hstep
+      | mint sender stage alloc proof res =>
+        rw [hop] at hstep
+        have hm : mint H top.1 w sender stage alloc proof res = some w' := hstep
+        obtain ⟨key, pal, _, _, rfl⟩ := mint_spec H top.1 w w' sender stage alloc proof res hm
+        intro rec hrec
+        simp only [List.mem_cons] at hrec
+        rcases hrec with rfl | hrec
+        · exact C14_mint_sender_bound_plain H Hlen top.1 w _ s hw entries Ls hLs r hr hrt hent sender stage alloc proof
+            res (hc top (by simp) sender stage alloc proof res hop) hm
+        · exact hinv rec hrec
+
+/-- **The same for the tiered whitelist**: `lists[i]` is the entry list whose root was committed at index `i`. Every
+logged mint carries the key `i+1` of the stage that was active when it happened and its sender's own triple is an entry
+of THAT stage's list — whatever the admins did to the windows in between. -/
+theorem C14_minted_all_listed_tiered (H : Bytes → Bytes) (Hlen : ∀ x, (H x).length = 16) (w0 : World) (s0 : Tiered)
+    (hw0 : w0.wl = .tiered s0) (hlog : w0.minted = [])
+    (lists : List (List Entry)) (Ls : List Nat) (hLs : LensApart Ls)
+    (hroots : ∀ (i : Nat) (rootStr : List Nat), s0.roots[i]? = some rootStr →
+      ∃ es r, lists[i]? = some es ∧ layeredRoot H (leavesOf es) = some r ∧ rootStr = hexEncode r)
+    (hent : ∀ es ∈ lists, ∀ e ∈ es, TripleOk Ls 32 e.1 e.2.1 e.2.2)
+    (ops : List (Nat × Op)) (hops : CallersOk Ls 32 ops) :
+    ∀ rec ∈ (run H w0 ops).minted, ∃ i es, rec.key = i + 1 ∧ lists[i]? = some es
+      ∧ ListedOrBroken H 16 es rec.stage rec.sender rec.alloc := by
+  suffices hgen : ∀ (ops : List (Nat × Op)) (w : World) (s : Tiered), w.wl = .tiered s → s.roots = s0.roots →
+      (∀ rec ∈ w.minted, ∃ i es, rec.key = i + 1 ∧ lists[i]? = some es
+        ∧ ListedOrBroken H 16 es rec.stage rec.sender rec.alloc) → CallersOk Ls 32 ops →
+      ∀ rec ∈ (run H w ops).minted, ∃ i es, rec.key = i + 1 ∧ lists[i]? = some es
+        ∧ ListedOrBroken H 16 es rec.stage rec.sender rec.alloc by
+    exact hgen ops w0 s0 hw0 rfl (by rw [hlog]; simp) hops
+  intro ops
+  induction ops with
+  | nil => intro w s _ _ hinv _; exact hinv
+  | cons top ops ih =>
+    intro w s hw hrt hinv hc
+    simp only [run, List.foldl_cons]
+    have hc' : CallersOk Ls 32 ops := fun t ht => hc t (by simp [ht])
+    unfold step'
+    cases hstep : step H top.1 w top.2 with
+    | none => exact ih w s hw hrt hinv hc'
+    | some w' =>
+      obtain ⟨s1, h1, h2⟩ := step_tiered H top.1 w w' top.2 s hw hstep
+      refine ih w' s1 h1 (by rw [h2, hrt]) ?_ hc'
+      cases hop : top.2 with
+      | wlMsg acc post =>
+        rw [hop] at hstep
+        simp only [step] at hstep
+        split at hstep
+        · simp at hstep; subst hstep; exact hinv
+        · simp at hstep
+      | mint sender stage alloc proof res =>
+        rw [hop] at hstep
+        have hm : mint H top.1 w sender stage alloc proof res = some w' := hstep
+        obtain ⟨key, pal, hact, _, rfl⟩ := mint_spec H top.1 w w' sender stage alloc proof res hm
+        intro rec hrec
+        simp only [List.mem_cons] at hrec
+        rcases hrec with rfl | hrec
+        · -- the stage active now, its root, its list
+          simp only [hw, Wl.active] at hact
+          cases hidx : activeIdx top.1 s.stages with
+          | none => simp [hidx] at hact
+          | some i =>
+            simp only [hidx, Option.map_eq_some_iff] at hact
+            obtain ⟨st, _, hkp⟩ := hact
+            have hkey : key = i + 1 := by simp at hkp; exact hkp.1.symm
+            obtain ⟨pf, _, hmem⟩ := mint_ok_hasMember H top.1 w _ sender stage alloc proof res hm
+            simp only [Wl.hasMember, hw, Tiered.hasMember, hidx] at hmem
+            cases hroot : s.roots[i]? with
+            | none => simp [hroot] at hmem
+            | some rootStr =>
+              obtain ⟨es, r, hl, hr, hrs⟩ := hroots i rootStr (by rw [← hrt]; exact hroot)
+              refine ⟨i, es, hkey, hl, ?_⟩
+              have hes : es ∈ lists := List.mem_of_getElem? hl
+              exact C14_mint_sender_bound_tiered H Hlen top.1 i w _ s hw es Ls hLs r hidx (by rw [hroot, hrs]) hr
+                (hent es hes) sender stage alloc proof res (hc top (by simp) sender stage alloc proof res hop) hm
+        · exact hinv rec hrec
+
+/-- **Completeness at the minter** (the other half of the gate): while a window is active, a sender whose leaf
+verifies against the root in force, who has not minted in this window yet and whose authenticated allowance is at
+least 1, is let through — WHATEVER the witness for the other gates says (the model decides this case). -/
+theorem C14_mint_first_accepted (H : Bytes → Bytes) (now : Nat) (w : World) (sender : Bytes) (stage alloc : Option Nat)
+    (pf : List (List Nat)) (key pal : Nat) (res : Bool)
+    (hact : w.wl.active now = some (key, pal))
+    (hmem : w.wl.hasMember H now (leafStr stage sender alloc) pf = some true)
+    (hfirst : hasMinted w.minted sender key = false) (hall : 1 ≤ alloc.getD pal) :
+    mint H now w sender stage alloc (some pf) res
+      = some { w with minted := ⟨sender, key, stage, alloc, now⟩ :: w.minted } := by
+  have hg : gate H now w.wl sender stage alloc (some pf) = true := by simp [gate, hact, hmem]
+  simp [mint, hact, hg, hfirst, hall]
+
+/-- … in particular a listed entry presenting its own layered (`rs_merkle`) proof to a plain whitelist in its window -/
+theorem C14_mint_listed_accepted_plain (H : Bytes → Bytes) (hH : HashOk H 32) (now : Nat) (w : World) (s : Plain)
+    (hw : w.wl = .plain s) (entries : List Entry) (j : Nat) (stage alloc : Option Nat) (sender r : Bytes)
+    (hj : entries[j]? = some (stage, sender, alloc))
+    (hr : layeredRoot H (leavesOf entries) = some r) (hroot : s.root = hexEncode r)
+    (hactive : s.isActive now = true) (hfirst : hasMinted w.minted sender 0 = false) (hall : 1 ≤ alloc.getD s.pal)
+    (res : Bool) :
+    (mint H now w sender stage alloc
+      (some ((proofAt (treeLayers H ((leavesOf entries).map H)) j).map hexEncode)) res).isSome := by
+  have hm : (leavesOf entries)[j]? = some (leafStr stage sender alloc) := by simp [leavesOf, hj]
+  have := C14_layered_complete H 32 hH (leavesOf entries) j _ r hm hr
+  rw [C14_mint_first_accepted H now w sender stage alloc _ 0 s.pal res (by simp [hw, Wl.active, hactive])
+    (by simpa [Wl.hasMember, hw, Plain.hasMember, hroot] using this) hfirst hall]
+  rfl
+
+/-- a closed gate is closed whatever the witness says (soundness at the minter is decided by the model) -/
+theorem C14_mint_gate_closed_rejects (H : Bytes → Bytes) (now : Nat) (w : World) (sender : Bytes)
+    (stage alloc : Option Nat) (proof : Option (List (List Nat))) (res : Bool)
+    (hg : gate H now w.wl sender stage alloc proof = false) :
+    mint H now w sender stage alloc proof res = none := by
+  unfold mint
+  split
+  · rfl
+  · simp [hg]
 
 /-! ## non-vacuity -/
 
-/-- a toy hash with 1-byte digests to exhibit concrete instances of the hypotheses -/
-def toyH (x : Bytes) : Bytes := [(x.foldl (fun a b => (a * 31 + b + 7) % 256) x.length) % 256]
-
-example : HashOk toyH 1 := ⟨fun _ => rfl, by intro x b hb; simp [toyH] at hb; omega⟩
+example : HashOk toyH 1 := toyH_ok
 
 /-- three members (odd size): the layered root exists, and member 2 (the promoted node) verifies with a 1-element proof -/
 example : ∃ r, layeredRoot toyH [[1], [2], [3]] = some r ∧
@@ -587,5 +1055,28 @@ example : leafStr (some 1) [97, 98, 99] (some 5) ≠ leafStr (some 1) [97, 98, 9
 /-- the tiered query really errors between two stages and answers inside one -/
 example : activeIdx 15 [⟨1, 10, 1, 0⟩, ⟨20, 30, 1, 0⟩] = none := by decide
 example : activeIdx 10 [⟨1, 10, 1, 0⟩, ⟨10, 30, 1, 0⟩] = some 0 := by decide
+
+/-- the aspect model's mint really runs: a one-entry list, its (empty) proof, first mint accepted even with `res = false`,
+the second one follows the witness, a stranger is rejected even with `res = true` -/
+example :
+    let root := hexEncode (toyH [97])
+    let w : World := ⟨.plain ⟨root, 10, 20, 1, [1], true⟩, []⟩
+    (mint toyH 15 w [97] none none (some []) false).isSome = true
+    ∧ (mint toyH 15 w [98] none none (some []) true).isSome = false
+    ∧ ∀ w', mint toyH 15 w [97] none none (some []) false = some w' →
+        (mint toyH 15 w' [97] none none (some []) false).isSome = false
+        ∧ (mint toyH 15 w' [97] none none (some []) true).isSome = true := by
+  refine ⟨by decide, by decide, ?_⟩
+  intro w' h
+  have : w' = ⟨.plain ⟨hexEncode (toyH [97]), 10, 20, 1, [1], true⟩, [⟨[97], 0, none, none, 15⟩]⟩ := by
+    have h2 : mint toyH 15 ⟨.plain ⟨hexEncode (toyH [97]), 10, 20, 1, [1], true⟩, []⟩ [97] none none (some []) false
+        = some ⟨.plain ⟨hexEncode (toyH [97]), 10, 20, 1, [1], true⟩, [⟨[97], 0, none, none, 15⟩]⟩ := by decide
+    rw [h2] at h; exact (Option.some.inj h).symm
+  subst this
+  exact ⟨by decide, by decide⟩
+
+/-- a configuration message with ANY outcome leaves the root alone, and a message of the wrong kind changes nothing -/
+example : (Wl.setCfg (.plain ⟨[1, 2], 10, 20, 1, [1], true⟩) (.plain ⟨[9, 9], 11, 30, 5, [], false⟩)).roots = [[1, 2]] := by
+  decide
 
 end LP
